@@ -9,6 +9,7 @@ package c04
 import (
 	"bytes"
 	"fmt"
+	"sort"
 	"sync"
 	"testing"
 
@@ -275,7 +276,8 @@ func TestC04Transcript(t *testing.T) {
 				case 2:
 					if s.ctx {
 						// over-long context: FIPS 204 Algorithm 2/3 return ⊥; documented as error / false
-						long := make([]byte, 256+rapid.IntRange(0, 40).Draw(t, "over"))
+						long := make([]byte, rapid.SampledFrom(ctxWrapLens[1:]).Draw(t, "over"))
+						vlib.FillRandom(t, long, "longctx")
 						sig := make([]byte, s.sigSize)
 						_, err := s.signTo(h.sk, msg, long)
 						if err == nil {
@@ -299,7 +301,11 @@ func TestC04Transcript(t *testing.T) {
 var altKinds = []string{
 	"mutate-sig", "mutate-sig", "sig-bitflip", "sig-bitflip", "mutate-pk", "mutate-msg", "mutate-ctx", "other-key",
 	"z-set", "ctilde", "trailing", "truncated", "hint", "hint", "hint", "z-boundary", "z-boundary", "z-max-valid",
+	"ctx-wrap", "ctx-wrap",
 }
+
+// ctxWrapLens are the context lengths around the 1-byte length field of the pure framing.
+var ctxWrapLens = []int{255, 256, 257, 258, 300, 511, 512, 513, 767, 768}
 
 // strictness probes must be what they claim to be; otherwise the generator (not circl) is broken.
 func probeSanity(t vlib.TB, h *honest, kind string, sig []byte) bool {
@@ -371,6 +377,21 @@ func verdict(t vlib.TB, h *honest, class, detail string, pkb, msg, ctx, sig []by
 		return
 	}
 	vlib.Class(sub, class+"→"+why)
+	if s.ctx && got == want {
+		// the generic sign.Scheme API must give the same verdict (Context is a string there)
+		var got2 bool
+		if pn, st := vlib.Catch(func() {
+			got2 = s.sch.Verify(pk.(sign.PublicKey), msg, sig, &sign.SignatureOpts{Context: string(ctx)})
+		}); pn != nil {
+			vlib.Report(t, "C04/panic/"+s.name+"/Scheme.Verify/"+vlib.PanicClass(pn), fmt.Sprintf("class=%s %s seed %x: %v\n%s", class, detail, h.seed, pn, st))
+			return
+		}
+		if got2 != want {
+			if vlib.Report(t, "C04/verify-verdict/"+s.name+"/scheme-api/"+keyClass, fmt.Sprintf("seed %x alteration %s (%s): Scheme().Verify = %v, specification = %v (%s)", h.seed, class, detail, got2, want, why)) {
+				return
+			}
+		}
+	}
 	if got != want {
 		if vlib.Report(t, "C04/verify-verdict/"+s.name+"/"+keyClass, fmt.Sprintf("seed %x msg %s ctx %s alteration %s (%s): circl Verify = %v, specification = %v (%s); |sig| = %d (SignatureSize %d)", h.seed, vlib.Hex(h.msg), vlib.Hex(h.ctx), class, detail, got, want, why, len(sig), s.sigSize)) {
 			return
@@ -401,7 +422,7 @@ func TestC04Verdict(t *testing.T) {
 					return
 				}
 				kind := rapid.SampledFrom(altKinds).Draw(t, "alt")
-				if kind == "mutate-ctx" && !s.ctx {
+				if (kind == "mutate-ctx" || kind == "ctx-wrap") && !s.ctx {
 					kind = "mutate-msg"
 				}
 				vlib.Class(sub, "alt="+kind)
@@ -467,6 +488,37 @@ func TestC04Verdict(t *testing.T) {
 						c2 = append(c2, 7)
 					}
 					verdict(t, h, "mutate-ctx", fmt.Sprintf("|ctx'|=%d", len(c2)), h.pkb, msg, c2, h.sig, false)
+				case "ctx-wrap":
+					// A context ctx' of n > 255 bytes must be refused. A verifier that writes byte(n) into
+					// the frame without refusing sees 0x00 || n mod 256 || ctx' || M, which is the valid
+					// frame of context ctx'[:n mod 256] and message ctx'[n mod 256:] || M. The signature of
+					// exactly that pair is presented, so that only the length rule stands between it and
+					// acceptance. n = 255 is the largest legal context (must verify).
+					n := rapid.SampledFrom(ctxWrapLens).Draw(t, "ctxlen")
+					if rapid.IntRange(0, 3).Draw(t, "rndlen") == 0 {
+						n = rapid.IntRange(256, 1100).Draw(t, "ctxlen2")
+					}
+					cw := make([]byte, n)
+					vlib.FillRandom(t, cw, "ctxwrap")
+					k := n % 256
+					inner := append(append([]byte{}, cw[k:]...), msg...)
+					h2, ok := makeHonest(t, s, seed, inner, cw[:k])
+					if !ok {
+						return
+					}
+					cls := "ctx-wrap>255"
+					if n == 255 {
+						cls = "ctx-wrap=255"
+					}
+					verdict(t, h2, cls, fmt.Sprintf("|ctx'|=%d, signature made for ctx'[:%d] and ctx'[%d:]||M", n, k, k), h2.pkb, msg, cw, h2.sig, true)
+					// the signing side must refuse the same context
+					if n > 255 {
+						if _, err := s.signTo(h2.sk, msg, cw); err == nil {
+							if vlib.Report(t, "C04/sign/"+s.name+"/ctx-too-long", fmt.Sprintf("SignTo accepted a context of %d bytes", n)) {
+								return
+							}
+						}
+					}
 				case "other-key":
 					seed2 := append([]byte{}, seed...)
 					seed2[rapid.IntRange(0, 31).Draw(t, "sb")] ^= 1 << uint(rapid.IntRange(0, 7).Draw(t, "sbit"))
@@ -650,5 +702,95 @@ func TestC04TailSeeds(t *testing.T) {
 				}
 			}
 		}
+	}
+}
+
+// TestC04Concurrent: the functions are functions of their arguments also when
+// called from several goroutines at once. Per scheme a few (seed, msg) records
+// are computed with the reference; 8 goroutines per scheme (all six schemes at
+// the same time) then cycle through the records in different orders: key
+// generation, Unpack of both keys, signing with the derived and with the
+// unpacked key, verification under the right and under another key. Every
+// output is compared with the reference bytes / verdicts.
+func TestC04Concurrent(t *testing.T) {
+	defer vlib.Done()
+	selftest(t)
+	type rec struct{ seed, msg, pkb, skb, sig []byte }
+	const nrec, workers = 4, 8
+	iters := vlib.N(120, 600)
+	recs := map[string][]rec{}
+	for _, s := range schemes {
+		for r := 0; r < nrec; r++ {
+			seed := make([]byte, 32)
+			vlib.ExpandInto(seed, uint64(vlib.Seed)*4099+uint64(vlib.Shard)*97+uint64(r))
+			msg := []byte(fmt.Sprintf("C04 concurrent %s %d", s.name, r))
+			pkb, skb := s.p.KeyGen(seed)
+			sig, _ := s.p.Sign(skb, msg, nil, make([]byte, 32))
+			recs[s.name] = append(recs[s.name], rec{seed, msg, pkb, skb, sig})
+		}
+	}
+	var mu sync.Mutex
+	failures := map[string]string{}
+	fail := func(key, detail string) {
+		mu.Lock()
+		if _, ok := failures[key]; !ok {
+			failures[key] = detail
+		}
+		mu.Unlock()
+	}
+	var wg sync.WaitGroup
+	for _, s := range schemes {
+		for g := 0; g < workers; g++ {
+			wg.Add(1)
+			go func(s *scheme, g int) {
+				defer wg.Done()
+				rs := recs[s.name]
+				for i := 0; i < iters; i++ {
+					r := rs[(g+i*(1+g%3))%nrec]
+					o := rs[(g+i*(1+g%3)+1)%nrec]
+					if pn, st := vlib.Catch(func() {
+						pk, sk, pkb, skb := s.derive(r.seed)
+						if !bytes.Equal(pkb, r.pkb) || !bytes.Equal(skb, r.skb) {
+							fail("C04/concurrent/"+s.name+"/keygen", fmt.Sprintf("seed %x: key bytes differ from the specification when keys for other seeds are derived concurrently", r.seed))
+						}
+						pk2, sk2 := s.unpackPK(r.pkb), s.unpackSK(r.skb)
+						po := s.unpackPK(o.pkb)
+						signer := sk
+						if i%2 == 1 {
+							signer = sk2
+						}
+						sig, err := s.signTo(signer, r.msg, nil)
+						if err != nil || !bytes.Equal(sig, r.sig) {
+							fail("C04/concurrent/"+s.name+"/sign", fmt.Sprintf("seed %x: signature differs from the specification under concurrency (unpacked key: %v, err=%v)", r.seed, i%2 == 1, err))
+						}
+						if !s.verify(pk, r.msg, nil, r.sig) || !s.verify(pk2, r.msg, nil, r.sig) {
+							fail("C04/concurrent/"+s.name+"/verify", fmt.Sprintf("seed %x: valid signature rejected under concurrency", r.seed))
+						}
+						if s.verify(po, r.msg, nil, r.sig) {
+							fail("C04/concurrent/"+s.name+"/verify-other-key", fmt.Sprintf("seed %x: signature accepted under the public key of seed %x", r.seed, o.seed))
+						}
+					}); pn != nil {
+						fail("C04/concurrent/"+s.name+"/panic/"+vlib.PanicClass(pn), fmt.Sprintf("%v\n%s", pn, st))
+						return
+					}
+				}
+			}(s, g)
+		}
+	}
+	wg.Wait()
+	keys := make([]string, 0, len(failures))
+	for k := range failures {
+		keys = append(keys, k)
+	}
+	sort.Strings(keys)
+	for _, s := range schemes {
+		sub := "concurrent/" + s.name
+		vlib.EvalN(sub, int64(workers*iters))
+		for _, r := range recs[s.name] {
+			vlib.NonTrivial(sub, "record", r.seed, r.msg)
+		}
+	}
+	for _, k := range keys {
+		vlib.ReportDirect(t, k, failures[k], map[string]interface{}{"workers": workers, "iters": iters})
 	}
 }
